@@ -41,6 +41,9 @@ def rand_case(rng):
             v = values.flt_exact(x)
             v['ip'] = int(abs(x))
             return {'f': f, 'args': [v]}
+        if rng.random() < 0.25:       # whole numbers of any size have a parity
+            return {'f': f, 'args': [enc(rng.choice([1, -1]) * rng.choice([10 ** 25 + 1, 2 ** 70, 2 ** 70 + 1, 2 ** 1024, 2 ** 1024 + 1, 3 ** 700, 10 ** 399 + 7,
+                                                                              10 ** 309, rng.randint(10 ** 20, 10 ** 330), 2.0 ** 70, 1e300]))]}
         return {'f': f, 'args': [enc(rng.choice([rng.randint(-50, 50), rng.randint(-50, 50) + 0.5, -0.5, 0.25, 1e6 + 1]))]}
     conds = [enc(True), enc(False), enc(0), enc(2), {'t': 'blank'}, {'t': 'err', 'c': rng.choice(['#N/A', '#DIV/0!', '#NUM!'])},
              enc(rng.choice([1e-16, 1e-300, 0.1 + 0.2 - 0.3])), enc(0.0)]
@@ -54,7 +57,7 @@ def rand_case(rng):
             a += [rng.choice(conds), rng.choice(vals)]
         return {'f': f, 'args': a}
     W = lambda n: {'t': 'num', 'n': n, 'd': 1, 'f': True}       # a whole number held as a float (4/2)
-    keys = [enc(1), enc(2), enc('x'), enc('y'), enc(2.5), W(1), W(2), enc('X'), enc('')]
+    keys = [enc(1), enc(2), enc('x'), enc('y'), enc(2.5), W(1), W(2), enc('X'), enc(''), {'t': 'blank'}, {'t': 'blank'}]
     n = rng.randint(1, 3)
     a = [rng.choice(keys)]
     for _ in range(n):
